@@ -5,14 +5,14 @@ scratch worktree of /repo (never /repo itself), run the quick check of the prope
 seeded/<id>/result.json.  The scratch worktree is removed afterwards."""
 import json, os, subprocess, sys, re, shutil
 V = "/verif"
-WT = "/tmp/wt-seedtest"
+WT = "/tmp/wt-seedtest-%d" % os.getpid()
 
 def sh(cmd, **kw):
     return subprocess.run(cmd, shell=True, stdout=subprocess.PIPE, stderr=subprocess.STDOUT, text=True, **kw)
 
 CONFIRM = "--confirm" in sys.argv
 sys.argv = [a for a in sys.argv if a != "--confirm"]
-TGT = "/tmp/wt-seedtest-target"
+TGT = "/tmp/wt-seedtest-target-%d" % os.getpid()
 
 def confirm(d):
     """the seed's own claims: demo passes on the clean tree, fails with the patch, and the
@@ -93,7 +93,10 @@ try:
         print(i, "CAUGHT" if res["caught"] else "MISSED", {p: r_["summary"][-60:] for p, r_ in res["runs"].items()})
 finally:
     sh("git -C /repo worktree remove --force %s; git -C /repo worktree prune" % WT)
-    sh("rm -rf %s/build/*-alt* %s" % (V, TGT))
+    # only this run's private build directories (other runs may be in flight)
+    import hashlib
+    tag = "-alt" + hashlib.sha1(WT.encode()).hexdigest()[:6]
+    sh("rm -rf %s/build/*%s %s" % (V, tag, TGT))
     # C20 regenerates Gen/Types.v from the tree it is pointed at: restore it from /repo
     if os.path.exists(V + "/tools/gen_types.py"):
         sh("python3 tools/gen_types.py", cwd=V)
